@@ -171,6 +171,19 @@ def run(ctx):
         for easy in (False, True):
             kind, r = timed(lambda: detect(easy), 10)
             got[easy] = r if kind == "ok" else "%s:%s" % (kind, type(r).__name__)
+        if nm:
+            # the name given as filename= next to a file object that has another name of its own (a temporary file, an
+            # upload): the explicit name is the one that counts, so the type is the same as above
+            def detect_kw():
+                f = F.NamedBytesIO(data, "upload-7f3a.tmp")
+                r = mutagen.File(f, filename=nm)
+                return type(r).__name__ if r is not None else "None"
+            kind, rk = timed(detect_kw, 10)
+            rk = rk if kind == "ok" else "%s:%s" % (kind, type(rk).__name__)
+            ctx.hist["detect:filename-kw-over-object-name"] += 1
+            if rk != got[False]:
+                ctx.violation("detect-filename-kw:%s->%s" % (fmt.kind, rk.split(":")[0]), "File(fileobj named 'upload-7f3a.tmp', filename=%r) gives %s, "
+                              "File(fileobj named %r) gives %s (%s file, %s)" % (nm, rk, nm, got[False], fmt.kind, label), case)
         perm_opts = [opts[False][j] for j in perms[i]]
         kind, rp = timed(lambda: detect(False, perm_opts), 10)
         got["perm"] = rp if kind == "ok" else "%s:%s" % (kind, type(rp).__name__)
